@@ -70,4 +70,85 @@ theorem expand_noSplit (c : Cfg) (xdp : Bool) (bevs : List BEv) (h : c.policyMap
   obtain ⟨h1, h2⟩ := this
   simp [h1, h2]
 
+
+/-! ### Splitting enabled but never triggered: fewer jumps than the per-program limit -/
+
+/-- Number of jump-class instructions (conditional jumps, `JumpA`, `Call`, `Exit`) of an event list:
+an upper bound for the `NumJumps` bookkeeping of the block. -/
+def jumpCount : List Ev → Nat
+  | [] => 0
+  | .ins i :: r => (if i.isJumpClass then 1 else 0) + jumpCount r
+  | .jmp i _ :: r => (if i.isJumpClass then 1 else 0) + jumpCount r
+  | .label _ :: r => jumpCount r
+
+theorem jumpCount_append (a b : List Ev) : jumpCount (a ++ b) = jumpCount a + jumpCount b := by
+  induction a with
+  | nil => simp [jumpCount]
+  | cons e es ih => cases e <;> simp [jumpCount, ih, Nat.add_assoc]
+
+theorem raw_numJumps (b : BlockSt) (e : Ev) : (b.raw e).numJumps ≤ b.numJumps + jumpCount [e] := by
+  cases e <;> simp only [BlockSt.raw, jumpCount] <;> (try split) <;> simp
+
+theorem maybeSplit_fewJumps (c : Cfg) (xdp : Bool) (s : SplitSt) (reload : List Ev)
+    (h : s.cur.numJumps < c.maxJumps) : s.maybeSplit c xdp reload = s := by
+  unfold SplitSt.maybeSplit
+  simp [h]
+
+theorem foldl_fewJumps (c : Cfg) (xdp : Bool) :
+    ∀ (bevs : List BEv) (s : SplitSt) (pre : List Ev),
+      s.done = [] → s.cur.out = pre.reverse → s.cur.len ≤ pre.length → s.cur.lastTrampAddr = 0 →
+      s.cur.numJumps ≤ jumpCount pre →
+      pre.length + (flat bevs).length < c.trampolineStride →
+      jumpCount pre + jumpCount (flat bevs) < c.maxJumps →
+      let s' := bevs.foldl (SplitSt.step c xdp) s
+      s'.done = [] ∧ s'.cur.out = (pre ++ flat bevs).reverse := by
+  intro bevs
+  induction bevs with
+  | nil => intro s pre hd ho _ _ _ _ _; simp [flat, hd, ho]
+  | cons b bs ih =>
+    intro s pre hd ho hl ht hj hlen hjc
+    cases b with
+    | ev e =>
+      simp only [List.foldl_cons, SplitSt.step, flat]
+      simp only [flat, List.length_cons] at hlen
+      have hadd : s.cur.add c.trampolineStride e = s.cur.raw e := by
+        apply add_eq_raw; omega
+      rw [hadd]
+      have hjc' : jumpCount (flat (BEv.ev e :: bs)) = jumpCount [e] + jumpCount (flat bs) := by
+        rw [← jumpCount_append]; rfl
+      have := ih { s with cur := s.cur.raw e } (pre ++ [e]) hd
+        (by simp [raw_out, ho])
+        (by have := raw_len s.cur e; simp only [List.length_append, List.length_cons, List.length_nil]; omega)
+        (by simp [raw_lastTramp, ht])
+        (by have := raw_numJumps s.cur e; rw [jumpCount_append]; simp only; omega)
+        (by simp only [List.length_append, List.length_cons, List.length_nil]; omega)
+        (by rw [jumpCount_append]; omega)
+      simpa using this
+    | maybeSplit reload =>
+      simp only [List.foldl_cons, SplitSt.step, flat, maybeSplit_fewJumps c xdp s reload (by omega)]
+      exact ih s pre hd ho hl ht hj (by simpa [flat] using hlen) (by simpa [flat] using hjc)
+
+/-- Splitting ENABLED (any `policyMapStride`) but the program has fewer jump-class instructions
+than the per-program limit and is shorter than the trampoline stride: still one block with exactly
+the builder's plain events.  (The production case for all but huge policy sets.) -/
+theorem expand_fewJumps (c : Cfg) (xdp : Bool) (bevs : List BEv) (hj : jumpCount (flat bevs) < c.maxJumps)
+    (hlen : (flat bevs).length < c.trampolineStride) : expand c xdp bevs = [flat bevs] := by
+  unfold expand
+  have := foldl_fewJumps c xdp bevs {} [] rfl rfl (Nat.le_refl _) rfl (Nat.le_refl _) (by simpa using hlen)
+    (by simpa [jumpCount] using hj)
+  simp only [List.nil_append] at this
+  obtain ⟨h1, h2⟩ := this
+  simp [h1, h2]
+
+
+/-- The program is not split: splitting is disabled, or it has fewer jump-class instructions than the
+per-program limit. -/
+def NoSplit (c : Cfg) (evs : List Ev) : Prop := c.policyMapStride = 0 ∨ jumpCount evs < c.maxJumps
+
+theorem expand_one (c : Cfg) (xdp : Bool) (bevs : List BEv) (h : NoSplit c (flat bevs))
+    (hlen : (flat bevs).length < c.trampolineStride) : expand c xdp bevs = [flat bevs] := by
+  rcases h with h | h
+  · exact expand_noSplit c xdp bevs h hlen
+  · exact expand_fewJumps c xdp bevs h hlen
+
 end CalicoVerif.C11
